@@ -21,9 +21,15 @@ package server
 import (
 	"bytes"
 	"context"
+	"crypto/sha256"
 	"encoding/hex"
+	"encoding/json"
 	"fmt"
+	"os"
+	"os/exec"
+	"path/filepath"
 	"reflect"
+	"runtime"
 	"runtime/debug"
 	"sort"
 	"strconv"
@@ -90,17 +96,27 @@ func (c10Log) Warn(a ...any)              { c10Say(a...) }
 func (c10Log) Warnf(f string, a ...any)   { c10Sayf(f, a...) }
 
 // c10Sender swallows everything the replica sends; block fetches find nothing.
-type c10Sender struct{}
+// Block fetches find nothing unless the replica was created with opt.fetch: then the peers serve the
+// blocks of table (what GorumsSender.RequestBlock returns after qspec.RequestBlockQF matched the hash).
+type c10Sender struct {
+	table   map[hotstuff.Hash]*hotstuff.Block
+	fetches int
+}
 
-func (c10Sender) NewView(hotstuff.ID, hotstuff.SyncInfo) error { return nil }
-func (c10Sender) Vote(hotstuff.ID, hotstuff.PartialCert) error { return nil }
-func (c10Sender) Timeout(hotstuff.TimeoutMsg)                  {}
-func (c10Sender) Propose(*hotstuff.ProposeMsg)                 {}
-func (c10Sender) RequestBlock(context.Context, hotstuff.Hash) (*hotstuff.Block, bool) {
+func (*c10Sender) NewView(hotstuff.ID, hotstuff.SyncInfo) error { return nil }
+func (*c10Sender) Vote(hotstuff.ID, hotstuff.PartialCert) error { return nil }
+func (*c10Sender) Timeout(hotstuff.TimeoutMsg)                  {}
+func (*c10Sender) Propose(*hotstuff.ProposeMsg)                 {}
+func (s *c10Sender) RequestBlock(_ context.Context, h hotstuff.Hash) (*hotstuff.Block, bool) {
+	s.fetches++
+	if b, ok := s.table[h]; ok {
+		// a fetched block arrives as a protobuf message and is converted like any other
+		return hotstuffpb.BlockFromProto(hotstuffpb.BlockToProto(b)), true
+	}
 	return nil, false
 }
-func (s c10Sender) Sub([]hotstuff.ID) (core.Sender, error)                        { return s, nil }
-func (c10Sender) SendContributionToParent(hotstuff.View, hotstuff.QuorumSignature) {}
+func (s *c10Sender) Sub([]hotstuff.ID) (core.Sender, error)                        { return s, nil }
+func (*c10Sender) SendContributionToParent(hotstuff.View, hotstuff.QuorumSignature) {}
 
 // ---------------------------------------------------------------- the world: keys and honest artefacts
 
@@ -128,6 +144,11 @@ type c10World struct {
 	qcOrph hotstuff.QuorumCert     // valid signatures over the orphan
 	tcs    map[hotstuff.View]hotstuff.TimeoutCert
 	aggs   map[string]hotstuff.AggregateQC // genuine aggregate QCs, built once
+	fetchable map[hotstuff.Hash]*hotstuff.Block // what peers serve to a replica created with opt.fetch
+	orph2, orph3 *hotstuff.Block             // children of the orphan (views 10, 11), never delivered
+	qcOrph2      hotstuff.QuorumCert
+	alt          []*hotstuff.Block           // alt[1..6]: a second honest chain with unusual command batches
+	altQC        []hotstuff.QuorumCert
 }
 
 // genuine aggregate QC of view v whose timeouts (replicas 1, 3, 4) all report qcs[i]
@@ -244,6 +265,30 @@ func c10NewWorld(t *testing.T, scheme string) *c10World {
 	for v := hotstuff.View(1); v <= 6; v++ {
 		w.tcs[v] = hotstuff.NewTimeoutCert(w.combine(v.ToBytes(), 1, 3, 4), v)
 	}
+	// the orphan branch continues: orph2 certifies the orphan, orph3 certifies orph2.  Peers serve the orphan and
+	// orph2, but not b1 (the orphan's parent): a fresh replica can fetch two levels and then fails.
+	w.orph2 = hotstuff.NewBlock(w.orphan.Hash(), w.qcOrph, c10Batch(10), 10, c10Ldr)
+	w.qcOrph2 = w.mkQC(w.orph2, 1, 3, 4)
+	w.orph3 = hotstuff.NewBlock(w.orph2.Hash(), w.qcOrph2, c10Batch(11), 11, c10Ldr)
+	w.fetchable = map[hotstuff.Hash]*hotstuff.Block{w.orphan.Hash(): w.orphan, w.orph2.Hash(): w.orph2}
+	// a chain whose blocks carry an empty batch, no batch at all, a huge batch with duplicates and zero-valued
+	// commands, a batch with one large command; alt[5], alt[6] make the first three committable
+	big := &clientpb.Batch{}
+	for i := 0; i < 3000; i++ {
+		c := &clientpb.Command{ClientID: uint32(i % 7), SequenceNumber: uint64(i % 11), Data: []byte{byte(i)}}
+		if i%5 == 0 {
+			c = &clientpb.Command{}
+		}
+		big.Commands = append(big.Commands, c)
+	}
+	batches := []*clientpb.Batch{nil, {}, nil, big, {Commands: []*clientpb.Command{{ClientID: ^uint32(0), SequenceNumber: ^uint64(0), Data: make([]byte, 1<<16)}}}, c10Batch(5), c10Batch(6)}
+	w.alt = []*hotstuff.Block{g}
+	w.altQC = []hotstuff.QuorumCert{w.qcs[0]}
+	for i := 1; i <= 6; i++ {
+		b := hotstuff.NewBlock(w.alt[i-1].Hash(), w.altQC[i-1], batches[i], hotstuff.View(i), c10Ldr)
+		w.alt = append(w.alt, b)
+		w.altQC = append(w.altQC, w.mkQC(b, 1, 3, 4))
+	}
 	return w
 }
 
@@ -258,6 +303,19 @@ func (w *c10World) timeoutMsg(id hotstuff.ID, v hotstuff.View, si hotstuff.SyncI
 
 // honest aggregate QC for view v built from the timeouts of replicas 1, 3, 4 that all report qc
 func (w *c10World) aggQC(v hotstuff.View, qc hotstuff.QuorumCert) hotstuff.AggregateQC {
+	k := fmt.Sprintf("q/%d/%d/%s", v, qc.View(), qc.BlockHash().String())
+	if a, ok := w.aggs[k]; ok {
+		return a
+	}
+	if w.aggs == nil {
+		w.aggs = map[string]hotstuff.AggregateQC{}
+	}
+	a := w.aggQC0(v, qc)
+	w.aggs[k] = a
+	return a
+}
+
+func (w *c10World) aggQC0(v hotstuff.View, qc hotstuff.QuorumCert) hotstuff.AggregateQC {
 	var tms []hotstuff.TimeoutMsg
 	for _, id := range []hotstuff.ID{1, 3, 4} {
 		tms = append(tms, w.timeoutMsg(id, v, hotstuff.NewSyncInfoWith(qc), true))
@@ -278,11 +336,31 @@ type c10Opt struct {
 	//   1: all timeouts reported the genesis QC (high QC without signature): view 2, lastVoted 0
 	//   2: after voting for b1, all timeouts reported qc1 (signed high QC): view 2, highQC qc1, lastVoted 1
 	aggSt int
+	simple bool // SimpleHotStuff rules instead of ChainedHotStuff
+	async  bool // votes are verified in a goroutine (no core.WithSyncVerification)
+	fetch  bool // missing blocks can be fetched from the peers (the orphan chain)
+	cache1 bool // signature cache of capacity 1
 }
 
 func (o c10Opt) String() string {
-	return fmt.Sprintf("cache=%v agg=%v kauri=%v mid=%v aggSt=%d", o.cache, o.agg, o.kauri, o.mid, o.aggSt)
+	s := fmt.Sprintf("cache=%v agg=%v kauri=%v mid=%v aggSt=%d", o.cache, o.agg, o.kauri, o.mid, o.aggSt)
+	if o.simple {
+		s += " rules=simplehotstuff"
+	}
+	if o.async {
+		s += " async-verification"
+	}
+	if o.fetch {
+		s += " fetchable-blocks"
+	}
+	if o.cache1 {
+		s += " cache-capacity-1"
+	}
+	return s
 }
+
+// secondary configurations are sampled more sparsely in the quick tier
+func (o c10Opt) secondary() bool { return o.simple || o.async || o.fetch || o.cache1 }
 
 func (o c10Opt) state() string {
 	switch {
@@ -309,7 +387,19 @@ type c10Replica struct {
 	rules  consensus.Ruleset
 	kauri  *comm.Kauri
 	impl   *serviceImpl
+	snd    *c10Sender
+	cio    *ClientIO
+	baseG  int // goroutines before a delivery (async verification)
 	dirty  bool
+}
+
+// lookup: the block Blockchain.Get would return for h (local store, else the peers), without storing it
+func (r *c10Replica) lookup(h hotstuff.Hash) (*hotstuff.Block, bool) {
+	if b, ok := r.bc.LocalGet(h); ok {
+		return b, true
+	}
+	b, ok := r.snd.table[h]
+	return b, ok
 }
 
 type c10Proj struct {
@@ -330,6 +420,12 @@ func (r *c10Replica) proj() c10Proj {
 	p.LastVoted = reflect.ValueOf(r.voter).Elem().FieldByName("lastVotedView").Uint()
 	if ch, ok := r.rules.(*rules.ChainedHotStuff); ok {
 		ptr := reflect.ValueOf(ch).Elem().FieldByName("bLock").Pointer()
+		if ptr != 0 {
+			p.Lock = (*hotstuff.Block)(unsafe.Pointer(ptr)).Hash().SmallString()
+		}
+	}
+	if sh, ok := r.rules.(*rules.SimpleHotStuff); ok {
+		ptr := reflect.ValueOf(sh).Elem().FieldByName("locked").Pointer()
 		if ptr != 0 {
 			p.Lock = (*hotstuff.Block)(unsafe.Pointer(ptr)).Hash().SmallString()
 		}
@@ -389,8 +485,13 @@ func c10Ctx(id int) gorums.ServerCtx {
 }
 
 func c10NewReplica(t *testing.T, w *c10World, opt c10Opt) *c10Replica {
-	opts := []core.RuntimeOption{core.WithSyncVerification()}
-	if opt.cache {
+	var opts []core.RuntimeOption
+	if !opt.async {
+		opts = append(opts, core.WithSyncVerification())
+	}
+	if opt.cache1 {
+		opts = append(opts, core.WithCache(1))
+	} else if opt.cache {
 		opts = append(opts, core.WithCache(64))
 	}
 	if opt.agg {
@@ -405,7 +506,11 @@ func c10NewReplica(t *testing.T, w *c10World, opt c10Opt) *c10Replica {
 	w.addReplicas(r.cfg)
 	log := c10Log{}
 	r.el = eventloop.New(log, 1000)
-	snd := c10Sender{}
+	snd := &c10Sender{}
+	if opt.fetch {
+		snd.table = w.fetchable
+	}
+	r.snd = snd
 	r.bc = blockchain.New(r.el, log, snd)
 	base, err := crypto.New(r.cfg, w.scheme)
 	if err != nil {
@@ -422,9 +527,12 @@ func c10NewReplica(t *testing.T, w *c10World, opt c10Opt) *c10Replica {
 		t.Fatal(err)
 	}
 	leader := leaderrotation.NewFixed(c10Ldr)
-	if opt.agg {
+	switch {
+	case opt.agg:
 		r.rules = rules.NewFastHotStuff(log, r.cfg, r.bc)
-	} else {
+	case opt.simple:
+		r.rules = rules.NewSimpleHotStuff(log, r.cfg, r.bc)
+	default:
 		r.rules = rules.NewChainedHotStuff(log, r.cfg, r.bc)
 	}
 	var cm comm.Communication
@@ -436,10 +544,14 @@ func c10NewReplica(t *testing.T, w *c10World, opt c10Opt) *c10Replica {
 	}
 	committer := consensus.NewCommitter(r.el, log, r.bc, r.states, r.rules)
 	r.voter = consensus.NewVoter(r.cfg, leader, r.rules, cm, r.auth, committer)
-	proposer := consensus.NewProposer(r.el, r.cfg, r.bc, r.states, r.rules, cm, r.voter, clientpb.NewCommandCache(1), committer)
+	cmdCache := clientpb.NewCommandCache(1)
+	// the client-facing side: committed batches are executed by ClientIO (ExecuteEvent / AbortEvent)
+	r.cio = NewClientIO(r.el, log, cmdCache)
+	proposer := consensus.NewProposer(r.el, r.cfg, r.bc, r.states, r.rules, cm, r.voter, cmdCache, committer)
 	synchronizer.New(r.el, log, r.cfg, r.auth, leader, synchronizer.NewFixedDuration(time.Hour),
 		synchronizer.NewTimeoutRuler(r.cfg, r.auth), proposer, r.voter, r.states, snd)
 	r.impl = &serviceImpl{srv: &Server{blockchain: r.bc, eventLoop: r.el, logger: log, config: r.cfg, id: c10Rut}}
+	r.baseG = runtime.NumGoroutine()
 	if opt.mid {
 		r.midRun(t)
 	}
@@ -469,6 +581,23 @@ func (r *c10Replica) aggRun(t *testing.T) {
 func (r *c10Replica) drain() {
 	ctx := context.Background()
 	for i := 0; i < 500 && r.el.Tick(ctx); i++ {
+	}
+	if !r.opt.async {
+		return
+	}
+	// votes are verified in goroutines that put their result on the event loop: wait until the
+	// goroutines spawned since the baseline are gone, then drain again
+	for round := 0; round < 10; round++ {
+		for i := 0; i < 5000 && runtime.NumGoroutine() > r.baseG; i++ {
+			time.Sleep(20 * time.Microsecond)
+		}
+		more := false
+		for i := 0; i < 500 && r.el.Tick(ctx); i++ {
+			more = true
+		}
+		if !more && runtime.NumGoroutine() <= r.baseG {
+			return
+		}
 	}
 }
 
@@ -576,7 +705,7 @@ func (r *c10Replica) hclass(h hotstuff.Hash) string {
 	if h == hotstuff.GetGenesis().Hash() {
 		return "HGenesis"
 	}
-	if _, ok := r.bc.LocalGet(h); ok {
+	if _, ok := r.lookup(h); ok {
 		return "HKnown"
 	}
 	return "HUnknown"
@@ -625,7 +754,7 @@ func (r *c10Replica) verifyAgainst(msg []byte) func(hotstuff.QuorumSignature) bo
 }
 
 func (r *c10Replica) blockBytes(h hotstuff.Hash) []byte {
-	if b, ok := r.bc.LocalGet(h); ok {
+	if b, ok := r.lookup(h); ok {
 		return b.ToBytes()
 	}
 	return nil
@@ -730,6 +859,7 @@ func c10Site(stack string) string {
 
 func (r *c10Replica) deliver(m *c10Msg, pb proto.Message) (o c10Obs) {
 	o.before = r.proj()
+	r.baseG = runtime.NumGoroutine()
 	func() {
 		defer func() {
 			if e := recover(); e != nil {
@@ -874,7 +1004,15 @@ func (r *c10Replica) termOf(m *c10Msg, pb proto.Message) (msg, env string, bad, 
 		}
 		unvalidated = !validated // the timeout's own signatures do not establish who sent it
 	case c10ReqBlock:
-		msg, bad = "(MRequestBlock "+r.hclass(c10Hash(pb.(*hotstuffpb.BlockHash).GetHash()))+")", true
+		// RequestBlock answers from the local store only
+		rh := c10Hash(pb.(*hotstuffpb.BlockHash).GetHash())
+		cl := "HUnknown"
+		if rh == hotstuff.GetGenesis().Hash() {
+			cl = "HGenesis"
+		} else if _, ok := r.bc.LocalGet(rh); ok {
+			cl = "HKnown"
+		}
+		msg, bad = "(MRequestBlock "+cl+")", true
 	case c10Contrib:
 		k := pb.(*kauripb.Contribution)
 		kv, kh := r.kauriState()
@@ -958,6 +1096,11 @@ type c10Run struct {
 	worlds map[string]*c10World
 	pool   map[string]*c10Replica // clean replicas by (scheme,opt), reused while nothing changed
 	nPanic, nChanged, nCases int
+	sparse   bool
+	sparseN  int
+	crumb    *os.File
+	sigMemo  map[string][]c10SigV
+	hostile  map[string][]*c10Msg // per configuration: delivered messages in which nothing verifies
 	failSeen map[string]int
 }
 
@@ -994,6 +1137,14 @@ func c10Short(s string, n int) string {
 
 // run delivers one message to a replica in the given configuration and records everything.
 func (x *c10Run) run(w *c10World, opt c10Opt, m *c10Msg, mutate func([]byte) []byte, fresh bool) {
+	// bls12 is ~50 times more expensive: in the secondary configurations of the quick tier also the messages that are
+	// always taken for the cheap schemes (absent parts: independent of the scheme) are thinned out
+	if x.sparse && w.scheme == crypto.NameBLS12 && !x.v.Thorough() {
+		x.sparseN++
+		if x.sparseN%3 != 0 {
+			return
+		}
+	}
 	pb, wire, ok := c10RoundTrip(m.kind, m.pb, mutate)
 	if !ok {
 		x.v.Count("wire:rejected-by-unmarshal")
@@ -1010,6 +1161,7 @@ func (x *c10Run) run(w *c10World, opt c10Opt, m *c10Msg, mutate func([]byte) []b
 
 func (x *c10Run) deliverOn(r *c10Replica, m *c10Msg, pb proto.Message, wire []byte, seq string) c10Obs {
 	w, opt := r.w, r.opt
+	x.inflight(r, m, pb, wire, seq) // before the ground truth is computed: it runs the same scheme code
 	msgT, envT, bad, unvalidated := r.termOf(m, pb)
 	o := r.deliver(m, pb)
 	x.nCases++
@@ -1026,7 +1178,7 @@ func (x *c10Run) deliverOn(r *c10Replica, m *c10Msg, pb proto.Message, wire []by
 	if strings.HasPrefix(seq, "parked step 1") {
 		kind = "NewView-releasing-parked-Propose"
 	}
-	meta := map[string]any{"handler": kind, "scheme": w.scheme, "cache": opt.cache, "aggregate_qc": opt.agg, "kauri": opt.kauri,
+	meta := map[string]any{"handler": kind, "scheme": w.scheme, "cache": opt.cache, "aggregate_qc": opt.agg, "kauri": opt.kauri, "config": opt.String(),
 		"state": opt.state(), "ctx_id": m.ctxID, "label": m.label,
 		"message": c10Short(fmt.Sprint(pb), 600), "wire_hex": c10Short(hex.EncodeToString(wire), 1200), "observed": obs, "nothing_verifies": bad}
 	if seq != "" {
@@ -1063,6 +1215,12 @@ func (x *c10Run) deliverOn(r *c10Replica, m *c10Msg, pb proto.Message, wire []by
 	x.v.Case(x.s, term, meta)
 	key := fmt.Sprintf("%s|%s|%v|%s|%s|%v", w.scheme, opt, m.ctxID, msgT, envT, seq != "")
 	x.v.Seen(key, !bad || strings.Contains(msgT, "Some"), map[string]any{"handler": kind, "label": m.label, "config": w.scheme + " " + opt.String(), "observed": obs})
+	if bad && !o.panicked && seq == "" {
+		k := w.scheme + " " + opt.String()
+		if len(x.hostile[k]) < 300 || x.nCases%7 == 0 {
+			x.hostile[k] = append(x.hostile[k], m)
+		}
+	}
 	x.v.Count("handler:" + kind)
 	x.v.Count("observed:" + obs)
 	x.v.Count("scheme:" + w.scheme)
@@ -1111,6 +1269,18 @@ func c10Multi(scheme string, signers []uint32, sigs [][]byte) *hotstuffpb.Quorum
 // sigVariants: variants of a signature field whose honest content signs msg (other = another message).
 // core = the small set used in products; the rest only in one-factor sweeps.
 func (x *c10Run) sigVariants(w *c10World, msg, other []byte, core bool) []c10SigV {
+	// signing is the expensive part (bls12): the variants for a given message are built once
+	hm, ho := sha256.Sum256(msg), sha256.Sum256(other)
+	key := fmt.Sprintf("%s|%v|%x|%x", w.scheme, core, hm[:8], ho[:8])
+	if vs, ok := x.sigMemo[key]; ok {
+		return vs
+	}
+	vs := x.sigVariants0(w, msg, other, core)
+	x.sigMemo[key] = vs
+	return vs
+}
+
+func (x *c10Run) sigVariants0(w *c10World, msg, other []byte, core bool) []c10SigV {
 	v := x.v
 	valid := hotstuffpb.QuorumSignatureToProto(w.combine(msg, 1, 3, 4))
 	out := []c10SigV{
@@ -1191,7 +1361,7 @@ func (x *c10Run) qcVariants(w *c10World, opt c10Opt, core bool) []c10QCV {
 	}
 	tgts := []tgt{{"b4", w.blocks[4]}, {"orphan", w.orphan}}
 	if !core {
-		tgts = append(tgts, tgt{"b1", w.blocks[1]}, tgt{"b2", w.blocks[2]})
+		tgts = append(tgts, tgt{"b1", w.blocks[1]}, tgt{"b2", w.blocks[2]}, tgt{"orphan-child", w.orph2})
 	}
 	for _, tg := range tgts {
 		h := tg.b.Hash()
@@ -1282,7 +1452,17 @@ func (x *c10Run) curView(opt c10Opt) hotstuff.View {
 // sample decides whether element i of n of a sweep is taken: everything in the thorough tier and for the
 // cheap schemes; for bls12 in the quick tier every k-th element.
 func (x *c10Run) take(w *c10World, i int, stride int) bool {
-	if x.v.Thorough() || w.scheme != crypto.NameBLS12 {
+	if x.v.Thorough() {
+		return true
+	}
+	if x.sparse { // secondary configuration: every 5th element, every 10th for bls12 (thinned again in run)
+		stride = 5
+		if w.scheme == crypto.NameBLS12 {
+			stride = 10
+		}
+		return i%stride == 0
+	}
+	if w.scheme != crypto.NameBLS12 {
 		return true
 	}
 	return i%stride == 0
@@ -1498,6 +1678,16 @@ func (x *c10Run) enumProposals(w *c10World, opt c10Opt) {
 		b := base()
 		b.QC = q.qc
 		emit(b, aggs[0], 1, "proposal honest-next but qc="+q.name)
+	}
+	// blocks of the orphan branch (their ancestors are unknown, or can be fetched for two levels with opt.fetch)
+	for _, ob := range []struct {
+		name string
+		b    *hotstuff.Block
+	}{{"orphan", w.orphan}, {"orphan-child", w.orph2}, {"orphan-grandchild", w.orph3}} {
+		emit(hotstuffpb.BlockToProto(ob.b), aggs[0], 1, "proposal of the "+ob.name+" block (valid QC, ancestors missing)")
+		nb := hotstuffpb.BlockToProto(ob.b)
+		nb.View = uint64(cur)
+		emit(nb, aggs[0], 1, "proposal of the "+ob.name+" block relabelled to the current view")
 	}
 	for _, a := range x.aggVariants(w, cur, false) {
 		emit(base(), a, 1, "proposal honest-next with agg="+a.name)
@@ -1762,6 +1952,363 @@ func (x *c10Run) parkedProposals(w *c10World, opts []c10Opt) {
 	}
 }
 
+// ---------------------------------------------------------------- quorums formed from wire messages
+
+// newest block the replica knows that is newer than its high QC (votes for it are collected), and the QC a
+// timeout of the current view would honestly report
+func (x *c10Run) frontier(w *c10World, opt c10Opt) (*hotstuff.Block, hotstuff.QuorumCert) {
+	switch {
+	case !opt.mid:
+		return nil, w.qcs[0]
+	case opt.agg:
+		return w.blocks[2], w.qcs[1]
+	}
+	return w.blocks[4], w.qcs[3]
+}
+
+// step delivers one message of a scripted sequence on r
+func (x *c10Run) step(r *c10Replica, seq string, i int, m *c10Msg) c10Obs {
+	pb, wire, ok := c10RoundTrip(m.kind, m.pb, nil)
+	if !ok {
+		return c10Obs{}
+	}
+	x.v.Count("stream:quorums")
+	return x.deliverOn(r, m, pb, wire, fmt.Sprintf("%s step %d", seq, i))
+}
+
+// quorums: three distinct replicas send valid timeouts (or votes), so that the third message makes the replica build
+// a timeout certificate / aggregate QC / quorum certificate from wire data and advance; the last message is also
+// replaced by hostile variants, duplicates and replays.
+func (x *c10Run) quorums(w *c10World, opts []c10Opt) {
+	n := 0
+	for _, opt := range opts {
+		if opt.kauri || opt.aggSt > 0 {
+			continue
+		}
+		cur := x.curView(opt)
+		vb, hqc := x.frontier(w, opt)
+		si := hotstuff.NewSyncInfoWith(hqc)
+		tmo := func(id hotstuff.ID, view hotstuff.View, f func(*hotstuffpb.TimeoutMsg)) *c10Msg {
+			pb := hotstuffpb.TimeoutMsgToProto(w.timeoutMsg(id, view, si, true))
+			lbl := fmt.Sprintf("genuine timeout of replica %d for view %d", id, view)
+			if f != nil {
+				f(pb)
+				lbl += " (modified)"
+			}
+			return &c10Msg{kind: c10Timeout, pb: pb, ctxID: int(id), label: lbl}
+		}
+		type tv struct {
+			name string
+			msgs []*c10Msg
+		}
+		max := hotstuff.View(^uint64(0))
+		own4 := func(view hotstuff.View) *hotstuffpb.QuorumSignature {
+			return hotstuffpb.QuorumSignatureToProto(w.sign(4, view.ToBytes()))
+		}
+		scripts := []tv{
+			{"three genuine timeouts", []*c10Msg{tmo(1, cur, nil), tmo(3, cur, nil), tmo(4, cur, nil)}},
+			{"three genuine timeouts, then all replayed", []*c10Msg{tmo(1, cur, nil), tmo(3, cur, nil), tmo(4, cur, nil), tmo(1, cur, nil), tmo(3, cur, nil), tmo(4, cur, nil)}},
+			{"duplicates at every position", []*c10Msg{tmo(1, cur, nil), tmo(1, cur, nil), tmo(3, cur, nil), tmo(3, cur, nil), tmo(1, cur, nil), tmo(4, cur, nil)}},
+			{"third without message signature", []*c10Msg{tmo(1, cur, nil), tmo(3, cur, nil), tmo(4, cur, func(t *hotstuffpb.TimeoutMsg) { t.MsgSig = nil })}},
+			{"third without sync info", []*c10Msg{tmo(1, cur, nil), tmo(3, cur, nil), tmo(4, cur, func(t *hotstuffpb.TimeoutMsg) { t.SyncInfo = nil })}},
+			{"third with a TC without signature", []*c10Msg{tmo(1, cur, nil), tmo(3, cur, nil), tmo(4, cur, func(t *hotstuffpb.TimeoutMsg) { t.SyncInfo.TC = &hotstuffpb.TimeoutCert{View: uint64(cur)} })}},
+			{"third with an aggregate QC without signature", []*c10Msg{tmo(1, cur, nil), tmo(3, cur, nil), tmo(4, cur, func(t *hotstuffpb.TimeoutMsg) { t.SyncInfo.AggQC = &hotstuffpb.AggQC{View: uint64(cur)} })}},
+			{"third claims the id of the receiver", []*c10Msg{tmo(1, cur, nil), tmo(3, cur, nil), {kind: c10Timeout, pb: hotstuffpb.TimeoutMsgToProto(w.timeoutMsg(4, cur, si, true)), ctxID: int(c10Rut), label: "timeout signed by 4 from a peer claiming id 2"}}},
+			{"third claims id 0", []*c10Msg{tmo(1, cur, nil), tmo(3, cur, nil), {kind: c10Timeout, pb: hotstuffpb.TimeoutMsgToProto(w.timeoutMsg(4, cur, si, true)), ctxID: 0, label: "timeout signed by 4 from a peer claiming id 0"}}},
+			{"third with a quorum view signature", []*c10Msg{tmo(1, cur, nil), tmo(3, cur, nil), tmo(4, cur, func(t *hotstuffpb.TimeoutMsg) {
+				t.ViewSig = hotstuffpb.QuorumSignatureToProto(w.combine(cur.ToBytes(), 1, 3, 4))
+			})}},
+			{"three genuine timeouts for the next view", []*c10Msg{tmo(1, cur+1, nil), tmo(3, cur+1, nil), tmo(4, cur+1, nil)}},
+			{"two views interleaved", []*c10Msg{tmo(1, cur, nil), tmo(1, cur+1, nil), tmo(3, cur+1, nil), tmo(3, cur, nil), tmo(4, cur+1, nil), tmo(4, cur, nil)}},
+			{"three genuine timeouts for the largest view", []*c10Msg{tmo(1, max, nil), tmo(3, max, nil), tmo(4, max, nil)}},
+			{"three genuine timeouts for view 0", []*c10Msg{tmo(1, 0, nil), tmo(3, 0, nil), tmo(4, 0, nil)}},
+			{"view signature for another view", []*c10Msg{tmo(1, cur, nil), tmo(3, cur, nil), tmo(4, cur, func(t *hotstuffpb.TimeoutMsg) { t.ViewSig = own4(cur + 1) })}},
+		}
+		if vb != nil && !opt.kauri {
+			h := vb.Hash()
+			vote := func(signer hotstuff.ID, ctx int, f func(*hotstuffpb.PartialCert)) *c10Msg {
+				pb := &hotstuffpb.PartialCert{Sig: hotstuffpb.QuorumSignatureToProto(w.sign(signer, vb.ToBytes())), Hash: h[:]}
+				lbl := fmt.Sprintf("genuine vote of replica %d for the newest block", signer)
+				if f != nil {
+					f(pb)
+					lbl += " (modified)"
+				}
+				return &c10Msg{kind: c10Vote, pb: pb, ctxID: ctx, label: lbl}
+			}
+			old := w.blocks[1].Hash()
+			scripts = append(scripts,
+				tv{"three genuine votes", []*c10Msg{vote(1, 1, nil), vote(3, 3, nil), vote(4, 4, nil)}},
+				tv{"three genuine votes, then replayed", []*c10Msg{vote(1, 1, nil), vote(3, 3, nil), vote(4, 4, nil), vote(4, 4, nil), vote(1, 1, nil)}},
+				tv{"duplicate votes then the third", []*c10Msg{vote(1, 1, nil), vote(1, 1, nil), vote(3, 3, nil), vote(3, 1, nil), vote(4, 4, nil)}},
+				tv{"third vote without signature", []*c10Msg{vote(1, 1, nil), vote(3, 3, nil), vote(4, 4, func(p *hotstuffpb.PartialCert) { p.Sig = nil }), vote(4, 4, nil)}},
+				tv{"third vote is a two-signer signature", []*c10Msg{vote(1, 1, nil), vote(3, 3, nil), vote(4, 4, func(p *hotstuffpb.PartialCert) {
+					p.Sig = hotstuffpb.QuorumSignatureToProto(w.combine(vb.ToBytes(), 1, 4))
+				}), vote(4, 4, nil)}},
+				tv{"third vote is for an old block", []*c10Msg{vote(1, 1, nil), vote(3, 3, nil), vote(4, 4, func(p *hotstuffpb.PartialCert) { p.Hash = old[:] }), vote(4, 4, nil)}},
+				tv{"votes of the receiver's own id and of an unknown id", []*c10Msg{vote(1, 1, nil), vote(2, 2, nil), vote(3, 77, nil), vote(4, 0, nil)}},
+				tv{"votes and timeouts interleaved", []*c10Msg{vote(1, 1, nil), tmo(1, cur, nil), vote(3, 3, nil), tmo(3, cur, nil), tmo(4, cur, nil), vote(4, 4, nil)}},
+			)
+		}
+		for _, sc := range scripts {
+			n++
+			if !x.take(w, n, 7) {
+				continue
+			}
+			r := c10NewReplica(x.t, w, opt)
+			for i, m := range sc.msgs {
+				if x.step(r, "quorum script ["+sc.name+"]", i, m).panicked {
+					break
+				}
+			}
+			x.v.Count("sequences:quorum-scripts")
+		}
+	}
+}
+
+// bursts: with asynchronous verification many votes are in flight at once.  The votes of a burst are handed to the
+// service handler back to back, the event loop runs without waiting for the verification goroutines, and only then
+// everything is allowed to finish.  Oracle: no panic, and the process survives (crash containment).
+func (x *c10Run) bursts(w *c10World, opts []c10Opt, rounds int) {
+	for _, opt := range opts {
+		vb, _ := x.frontier(w, opt)
+		if vb == nil || !opt.async {
+			continue
+		}
+		h := vb.Hash()
+		old := w.blocks[1].Hash()
+		for round := 0; round < rounds; round++ {
+			r := c10NewReplica(x.t, w, opt)
+			var msgs []*hotstuffpb.PartialCert
+			for i := 0; i < 48; i++ {
+				signer := []hotstuff.ID{1, 3, 4, 2}[(i+round)%4]
+				pc := &hotstuffpb.PartialCert{Sig: hotstuffpb.QuorumSignatureToProto(w.sign(signer, vb.ToBytes())), Hash: h[:]}
+				switch i % 6 {
+				case 3:
+					pc.Sig = x.sigVariants(w, vb.ToBytes(), w.blocks[2].ToBytes(), true)[3].sig // garbage
+				case 4:
+					pc.Hash = old[:]
+				case 5:
+					pc.Sig = nil
+				}
+				msgs = append(msgs, pc)
+			}
+			lbl := fmt.Sprintf("burst of %d votes (genuine, garbage, old block, no signature) with asynchronous verification, round %d", len(msgs), round)
+			m := &c10Msg{kind: c10Vote, pb: msgs[0], ctxID: 3, label: lbl}
+			x.inflight(r, m, msgs[0], nil, "burst")
+			crashed := !c10Returns(func() {
+				r.baseG = runtime.NumGoroutine()
+				ctx := context.Background()
+				for i, pc := range msgs {
+					r.impl.Vote(c10Ctx([]int{1, 3, 4, 2}[i%4]), pc)
+					for k := 0; k < 3 && r.el.Tick(ctx); k++ {
+					}
+				}
+				r.drain()
+			})
+			x.oracle(!crashed, "panic:Vote:burst", lbl+" panics", map[string]any{"scheme": w.scheme, "config": opt.String(), "label": lbl})
+			x.v.Count("stream:bursts")
+		}
+	}
+}
+
+// ---------------------------------------------------------------- unusual command batches
+
+// batches: an honest-looking chain whose blocks carry an empty batch, no batch, a huge batch with duplicates and
+// zero-valued commands, and one very large command is proposed, certified and committed: the committed batches reach
+// the command cache (Proposed) and ClientIO (Exec).  Then replays and an equivocating block follow.
+func (x *c10Run) batches(w *c10World, opts []c10Opt) {
+	for _, opt := range opts {
+		if opt.agg || opt.kauri || opt.mid || opt.aggSt > 0 {
+			continue
+		}
+		r := c10NewReplica(x.t, w, opt)
+		prop := func(b *hotstuff.Block, what string) *c10Msg {
+			return &c10Msg{kind: c10Propose, pb: hotstuffpb.ProposalToProto(hotstuff.ProposeMsg{ID: c10Ldr, Block: b}), ctxID: int(c10Ldr), label: what}
+		}
+		names := []string{"", "empty batch", "no batch", "3000 commands with duplicates and zero values", "one 64 KiB command with maximal ids", "ordinary", "ordinary"}
+		var msgs []*c10Msg
+		for i := 1; i <= 6; i++ {
+			msgs = append(msgs, prop(w.alt[i], fmt.Sprintf("proposal of chain block %d (%s)", i, names[i])))
+		}
+		msgs = append(msgs, prop(w.alt[3], "replay of the proposal of chain block 3 after it was committed"),
+			prop(hotstuff.NewBlock(w.alt[5].Hash(), w.altQC[5], &clientpb.Batch{Commands: []*clientpb.Command{{}}}, 6, c10Ldr), "second block for view 6 (equivocation) with a zero-valued command"))
+		for i, m := range msgs {
+			if x.step(r, "batch chain", i, m).panicked {
+				break
+			}
+		}
+		committed := r.states.CommittedBlock().Hash() == w.alt[3].Hash()
+		if !committed {
+			x.v.Note(fmt.Sprintf("%s %s: the chain with unusual batches was NOT committed (executed commands: %d)", w.scheme, opt, r.cio.CmdCount()))
+		}
+		x.v.CountN("stream:batches:commands-executed", int(r.cio.CmdCount()))
+		if committed {
+			x.v.Count("stream:batches:committed")
+		}
+	}
+}
+
+// ---------------------------------------------------------------- identifiers at the boundaries
+
+// 8, 9, 16, 17: the first ids outside a one- and a two-byte participant bitfield
+var c10IDs = []int{0, 2, 5, 8, 9, 16, 17, 255, 256, 65535, 65536, 1 << 24, 1 << 31, 1<<32 - 1}
+
+// ids: peer ids that are 0, the receiver's own, not in the configuration, and at the boundaries of uint8/16/32 — as the
+// id attached by the service handler, as signer ids inside signatures, as keys of the AggQC map, as proposer and
+// contribution ids.
+func (x *c10Run) ids(w *c10World, opts []c10Opt) {
+	n := 0
+	for _, opt := range opts {
+		if opt.aggSt > 0 {
+			continue
+		}
+		cur := x.curView(opt)
+		vb, hqc := x.frontier(w, opt)
+		if vb == nil {
+			vb = w.blocks[1]
+		}
+		si := hotstuff.NewSyncInfoWith(hqc)
+		vh := vb.Hash()
+		single := hotstuffpb.QuorumSignatureFromProto(hotstuffpb.QuorumSignatureToProto(w.sign(3, vb.ToBytes()))).ToBytes()
+		for _, id := range c10IDs {
+			var msgs []*c10Msg
+			msgs = append(msgs,
+				&c10Msg{kind: c10Timeout, pb: hotstuffpb.TimeoutMsgToProto(w.timeoutMsg(4, cur, si, true)), ctxID: id, label: fmt.Sprintf("genuine timeout of replica 4 sent by a peer with id %d", id)},
+				&c10Msg{kind: c10Vote, pb: &hotstuffpb.PartialCert{Sig: hotstuffpb.QuorumSignatureToProto(w.sign(3, vb.ToBytes())), Hash: vh[:]}, ctxID: id, label: fmt.Sprintf("genuine vote of replica 3 sent by a peer with id %d", id)},
+				&c10Msg{kind: c10NewView, pb: hotstuffpb.SyncInfoToProto(si), ctxID: id, label: fmt.Sprintf("new-view with the high QC from a peer with id %d", id)},
+			)
+			hs := x.honest(w, opt)
+			p0 := *hs[0]
+			p0.ctxID, p0.label = id, fmt.Sprintf("honest proposal sent by a peer with id %d", id)
+			pk := *hs[0]
+			pkb := proto.Clone(pk.pb).(*hotstuffpb.Proposal)
+			pkb.Block.Proposer = uint32(id)
+			pk.pb, pk.label = pkb, fmt.Sprintf("honest proposal naming proposer %d", id)
+			msgs = append(msgs, &p0, &pk)
+			if w.scheme != crypto.NameBLS12 {
+				msgs = append(msgs,
+					&c10Msg{kind: c10Vote, pb: &hotstuffpb.PartialCert{Sig: c10Multi(w.scheme, []uint32{uint32(id)}, [][]byte{single}), Hash: vh[:]}, ctxID: 3, label: fmt.Sprintf("vote whose signature names signer %d", id)},
+					&c10Msg{kind: c10Timeout, pb: &hotstuffpb.TimeoutMsg{View: uint64(cur), SyncInfo: hotstuffpb.SyncInfoToProto(si),
+						ViewSig: c10Multi(w.scheme, []uint32{uint32(id)}, [][]byte{single})}, ctxID: id, label: fmt.Sprintf("timeout whose view signature names signer %d, from a peer with that id", id)})
+			} else if id <= 65536 && id > 0 {
+				bf := make([]byte, (id-1)/8+1)
+				bf[(id-1)/8] = 1 << uint((id-1)%8)
+				sig := hotstuffpb.QuorumSignatureToProto(w.sign(3, vb.ToBytes())).GetBLS12Sig().GetSig()
+				bls := &hotstuffpb.QuorumSignature{Sig: &hotstuffpb.QuorumSignature_BLS12Sig{BLS12Sig: &hotstuffpb.BLS12AggregateSignature{Sig: sig, Participants: bf}}}
+				msgs = append(msgs,
+					&c10Msg{kind: c10Vote, pb: &hotstuffpb.PartialCert{Sig: bls, Hash: vh[:]}, ctxID: 3, label: fmt.Sprintf("vote whose bitfield names signer %d", id)},
+					&c10Msg{kind: c10Timeout, pb: &hotstuffpb.TimeoutMsg{View: uint64(cur), SyncInfo: hotstuffpb.SyncInfoToProto(si), ViewSig: bls}, ctxID: id, label: fmt.Sprintf("timeout whose bitfield names signer %d, from a peer with that id", id)})
+			}
+			if opt.agg {
+				a := hotstuffpb.AggregateQCToProto(w.genAgg(cur, int(hqc.View())))
+				a = proto.Clone(a).(*hotstuffpb.AggQC)
+				a.QCs[uint32(id)] = hotstuffpb.QuorumCertToProto(w.qcs[0])
+				msgs = append(msgs, &c10Msg{kind: c10NewView, pb: &hotstuffpb.SyncInfo{AggQC: a}, ctxID: 3, label: fmt.Sprintf("genuine aggregate QC with an extra entry for replica %d", id)})
+			}
+			if opt.kauri {
+				msgs = append(msgs, &c10Msg{kind: c10Contrib, pb: &kauripb.Contribution{ID: uint32(id), Signature: hotstuffpb.QuorumSignatureToProto(w.sign(4, w.blocks[4].ToBytes())), View: uint64(cur)}, ctxID: 4,
+					label: fmt.Sprintf("genuine contribution naming replica %d", id)})
+			}
+			for _, m := range msgs {
+				n++
+				if !x.take(w, n, 4) && id != 0 {
+					continue
+				}
+				x.v.Count("stream:ids")
+				x.run(w, opt, m, nil, false)
+			}
+		}
+	}
+}
+
+// hostileSeqs: two or three messages in which nothing verifies, drawn from everything delivered so far to this
+// configuration, go to one fresh replica; the protocol state must not move over the whole sequence.
+func (x *c10Run) hostileSeqs(w *c10World, opts []c10Opt, n int) {
+	rng := x.v.rng
+	for i := 0; i < n; i++ {
+		opt := opts[rng.Intn(len(opts))]
+		pool := x.hostile[w.scheme+" "+opt.String()]
+		if len(pool) < 3 {
+			continue
+		}
+		r := c10NewReplica(x.t, w, opt)
+		start := r.proj()
+		var labels []string
+		k := 2 + rng.Intn(2)
+		crashed := false
+		for j := 0; j < k && !crashed; j++ {
+			m := pool[rng.Intn(len(pool))]
+			pb, wire, ok := c10RoundTrip(m.kind, m.pb, nil)
+			if !ok {
+				continue
+			}
+			labels = append(labels, m.label)
+			crashed = x.deliverOn(r, m, pb, wire, fmt.Sprintf("hostile seq %d step %d after [%s]", i, j, strings.Join(labels[:len(labels)-1], "; "))).panicked
+		}
+		if end := r.proj(); !crashed {
+			x.oracle(start == end, "inert:hostile-sequence", "a sequence of messages in which nothing verifies moved the protocol state: "+start.diff(end),
+				map[string]any{"scheme": w.scheme, "config": opt.String(), "messages": labels, "before": start, "after": end})
+		}
+		x.v.Count("sequences:hostile")
+	}
+}
+
+// ---------------------------------------------------------------- crash containment
+
+// A panic in a goroutine spawned by a handler (asynchronous vote verification, the per-signature goroutines of
+// the ecdsa / eddsa schemes) cannot be recovered: it stops the process, which is exactly what the property
+// forbids.  The streams therefore run in a child process; before every delivery the child records the message
+// in flight, and when the child dies the parent reports that message as the failing input.
+func (x *c10Run) inflight(r *c10Replica, m *c10Msg, pb proto.Message, wire []byte, seq string) {
+	if x.crumb == nil {
+		return
+	}
+	b, _ := json.Marshal(map[string]any{"handler": c10KindName[m.kind], "scheme": r.w.scheme, "config": r.opt.String(), "state": r.opt.state(),
+		"ctx_id": m.ctxID, "label": m.label, "sequence": seq, "message": c10Short(fmt.Sprint(pb), 600), "wire_hex": c10Short(hex.EncodeToString(wire), 1200)})
+	b = append(b, '\n')
+	_, _ = x.crumb.WriteAt(b, 0)
+	_ = x.crumb.Truncate(int64(len(b)))
+}
+
+func c10Parent(t *testing.T) {
+	v := verifNew("C10")
+	crumb := filepath.Join(v.dir, "c10_inflight.json")
+	_ = os.Remove(crumb)
+	cmd := exec.Command(os.Args[0], "-test.run=^TestVerifC10$", "-test.count=1", "-test.timeout=60m")
+	cmd.Env = append(os.Environ(), "VERIF_C10_CHILD="+crumb)
+	var out bytes.Buffer
+	cmd.Stdout, cmd.Stderr = &out, &out
+	err := cmd.Run()
+	if err == nil {
+		return // the child wrote shards and statistics itself
+	}
+	text := out.String()
+	i := strings.Index(text, "panic: ")
+	if j := strings.Index(text, "fatal error: "); i < 0 || (j >= 0 && j < i) {
+		i = j
+	}
+	b, _ := os.ReadFile(crumb)
+	if i < 0 {
+		t.Fatalf("child run failed without a Go crash: %v\n%s", err, c10Short(text, 4000))
+	}
+	var input map[string]any
+	_ = json.Unmarshal(b, &input)
+	if input == nil {
+		input = map[string]any{"handler": "setup", "label": "the process died before the first delivery (keys, honest certificates, guard probes)"}
+	}
+	crash := text[i:]
+	line := strings.SplitN(crash, "\n", 2)[0]
+	site := c10Site(crash)
+	input["panic"] = c10Short(line, 200)
+	input["panic_site"] = site
+	input["observed"] = "process died (panic outside the goroutines the harness can recover)"
+	input["stack"] = c10Short(crash, 1500)
+	v.Oracle(false, fmt.Sprintf("crash:%v:%s", input["handler"], site),
+		fmt.Sprintf("%v from a peer stops the process: %s in %s (unrecoverable: not on the goroutine of the caller)", input["handler"], line, site), input)
+	v.Note("the child process died; the streams after the failing message were not run")
+	v.Close("crash containment: the message in flight when the process died")
+}
+
 // ---------------------------------------------------------------- genuine aggregate QCs (fast-hotstuff)
 
 // genuineAgg: messages built around a GENUINE, verifying aggregate QC (real keys, real timeouts), so that
@@ -1923,9 +2470,20 @@ func (x *c10Run) genuineAgg(w *c10World) {
 // ---------------------------------------------------------------- test entry
 
 func TestVerifC10(t *testing.T) {
+	crumbPath := os.Getenv("VERIF_C10_CHILD")
+	if crumbPath == "" && os.Getenv("VERIF_C10_INPROCESS") == "" {
+		c10Parent(t)
+		return
+	}
 	v := verifNew("C10")
-	x := &c10Run{t: t, v: v, worlds: map[string]*c10World{}, pool: map[string]*c10Replica{}, failSeen: map[string]int{}}
+	x := &c10Run{t: t, v: v, worlds: map[string]*c10World{}, pool: map[string]*c10Replica{}, failSeen: map[string]int{}, hostile: map[string][]*c10Msg{}, sigMemo: map[string][]c10SigV{}}
 	x.s = v.Stream("deliver", "mismatches", 1500)
+	if crumbPath != "" {
+		if f, err := os.OpenFile(crumbPath, os.O_CREATE|os.O_RDWR, 0o644); err == nil {
+			x.crumb = f
+			defer f.Close()
+		}
+	}
 	schemes := []string{crypto.NameECDSA, crypto.NameEDDSA, crypto.NameBLS12}
 	for _, s := range schemes {
 		x.worlds[s] = c10NewWorld(t, s)
@@ -1954,6 +2512,40 @@ func TestVerifC10(t *testing.T) {
 				x.enumContributions(w, opt)
 			}
 		}
+		// secondary configurations: SimpleHotStuff rules, fetchable blocks, cache of capacity 1, asynchronous verification
+		sec := []c10Opt{{simple: true}, {simple: true, mid: true}, {simple: true, cache: true, mid: true},
+			{fetch: true}, {fetch: true, mid: true}, {fetch: true, agg: true, mid: true}, {cache: true, cache1: true, mid: true}}
+		asyncOpts := []c10Opt{{async: true, mid: true}, {async: true, cache: true, mid: true}, {async: true, agg: true, mid: true}}
+		tSec := time.Now()
+		x.sparse = true
+		for _, opt := range sec {
+			x.enumVotes(w, opt)
+			x.enumNewViews(w, opt)
+			x.enumTimeouts(w, opt)
+			x.enumProposals(w, opt)
+			x.enumRequestBlocks(w, opt)
+		}
+		for _, opt := range asyncOpts {
+			x.enumVotes(w, opt)
+		}
+		x.sparse = false
+		var clique []c10Opt
+		for _, o := range opts {
+			if !o.kauri {
+				clique = append(clique, o)
+			}
+		}
+		all := append(append(append([]c10Opt{}, clique...), sec...), asyncOpts...)
+		tQ := time.Now()
+		x.quorums(w, all)
+		tB := time.Now()
+		x.bursts(w, asyncOpts, v.Pick(6, 60))
+		tBa := time.Now()
+		x.batches(w, []c10Opt{{}, {cache: true}, {simple: true}, {async: true}, {fetch: true}})
+		tI := time.Now()
+		x.ids(w, []c10Opt{{mid: true}, {cache: true, mid: true}, {agg: true, mid: true}, {kauri: true, mid: true}, {async: true, mid: true}})
+		v.Note(fmt.Sprintf("%s timing: secondary configs %.1fs, quorum scripts %.1fs, bursts %.1fs, batches %.1fs, ids %.1fs", s,
+			tQ.Sub(tSec).Seconds(), tB.Sub(tQ).Seconds(), tBa.Sub(tB).Seconds(), tI.Sub(tBa).Seconds(), time.Since(tI).Seconds()))
 		v.Note(fmt.Sprintf("%s: enumeration done after %.1fs, %d cases", s, time.Since(t0).Seconds(), x.nCases))
 		nr, ns := v.Pick(600, 6000), v.Pick(60, 600)
 		if s == crypto.NameBLS12 {
@@ -1963,10 +2555,16 @@ func TestVerifC10(t *testing.T) {
 		// the random streams also start from the states behind a genuine aggregate QC
 		optsR := append(append([]c10Opt{}, opts...), c10Opt{agg: true, aggSt: 1}, c10Opt{agg: true, aggSt: 2},
 			c10Opt{cache: true, agg: true, aggSt: 1}, c10Opt{cache: true, agg: true, aggSt: 2})
+		optsR = append(append(optsR, sec...), asyncOpts...)
+		nh := v.Pick(90, 900)
+		if s == crypto.NameBLS12 {
+			nh = v.Pick(25, 400)
+		}
+		x.hostileSeqs(w, append(append([]c10Opt{}, opts...), sec...), nh)
 		x.randomStream(w, optsR, nr)
 		x.sequences(w, optsR, ns)
 		x.parkedProposals(w, opts)
 	}
 	v.Note(fmt.Sprintf("cases=%d panics=%d changed=%d in %.1fs", x.nCases, x.nPanic, x.nChanged, time.Since(t0).Seconds()))
-	v.Close("one case = one wire message delivered to a hand-wired replica (3 schemes x cache x {simple, aggregate, kauri} x {fresh, mid-run, behind a genuine aggregate QC}) followed by draining the event loop; non-trivial = the message carries at least one present optional part or a signature that verifies")
+	v.Close("one case = one wire message delivered to a hand-wired replica (3 schemes x cache x {simple, aggregate, kauri} x {fresh, mid-run, behind a genuine aggregate QC}; secondary: SimpleHotStuff rules, fetchable blocks, cache capacity 1, asynchronous vote verification) followed by draining the event loop; non-trivial = the message carries at least one present optional part or a signature that verifies")
 }
